@@ -174,12 +174,19 @@ def enumeration_users(repo: Repo, which):
             used = None
             from sa.absint import FUNCTION_INDEX
             bodies, seen = [fn], {fn.name}
-            for _ in range(2):
+            enum_names = ("interactions_iter", "interactions", "out_interactions", "out_interactions_iter")
+            own = repo.class_methods(rel, cls) if "." in qual else {}
+            for _ in range(3):
                 for b in list(bodies):
                     for c in ast.walk(b):
                         if isinstance(c, ast.Call) and isinstance(c.func, ast.Name) and c.func.id in FUNCTION_INDEX and c.func.id not in seen:
                             seen.add(c.func.id)
                             bodies.append(FUNCTION_INDEX[c.func.id][0][1])
+                        elif isinstance(c, ast.Call) and isinstance(c.func, ast.Attribute) and isinstance(c.func.value, ast.Name) \
+                                and c.func.value.id == "self" and c.func.attr in own and c.func.attr not in enum_names \
+                                and c.func.attr.startswith("_") and c.func.attr not in seen:
+                            seen.add(c.func.attr)        # a private helper of the same class
+                            bodies.append(own[c.func.attr])
             for b in bodies:
                 for n in ast.walk(b):
                     if isinstance(n, ast.Call) and isinstance(n.func, ast.Attribute) and n.func.attr in (
